@@ -30,7 +30,8 @@ S = Suite(
           "the top node, one-element, full column (forward and reversed); level argument as python "
           "int, numpy integer, list, int64 array; grids 6..16 x 6..12, halo 0 / None / "
           "incommensurate, truncated and clamped modes; footprint and dispersion, numeric and "
-          "analytic, single and double precision; distinct in-range levels (solver calls); through "
+          "analytic, single and double precision; distinct in-range levels (solver calls); one full column of 65 levels on a "
+          "128 x 128 grid padded to 256 x 256 (thorough: also 130 levels, and 192 x 192 in single precision); through "
           "the configuration-driven interface: output_levels ascending / descending / unsorted / "
           "with a level listed twice / one level, and full_output, nz 6..9, default / single / "
           "double precision, closures MOST/MOSTM/CONSTANT (analytic); a sample",
@@ -230,6 +231,36 @@ def full_column(nx, ny, dx, dy, halo, modes, footprint, analytic, precision, im,
     ok = worst <= cx.tol
     return Verdict(ok, "%s full column %s subset %s: worst relerr %.2e at %s tol %.0e" % (
         tag, oc, subset, worst, where, cx.tol), key=key, measured=worst / cx.tol)
+
+
+@S.kind("large-full-column")
+def large_full_column(n, nz, footprint, precision, seed):
+    """The full-column request the statement names, on a grid and a column that are not tiny: n x n cells padded to
+    2n x 2n, nz nodes (so the output stack is nz x 2n x 2n spectral values -- work done level by level, or in blocks of
+    levels, must cover every level).  Slices 0, 1, nz//2, nz-2, nz-1 against the single-level solves; heights of all."""
+    dx = 5.0
+    prof = dict(kind="const", nz=nz, z0=0.05, ztop=2.5, stretch=1.3, u=3.0, v=1.2, Kx=0.9, Ky=0.5, Kz=0.7)
+    cx = _Ctx(n, n, dx, dx, (n // 2) * dx, (2 * n, 2 * n), footprint, False, precision, n // 3, n // 2, prof, seed, 0.8)
+    levels = list(range(nz))
+    tag = "large %dx%d (padded %dx%d), %d levels, %s %s" % (n, n, 2 * n, 2 * n, nz, "fp" if footprint else "disp", precision)
+    try:
+        X, Y, Z, C, F = cx.solve(levels)
+    except Exception as e:
+        return Verdict(False, "%s: %s: %s" % (tag, type(e).__name__, str(e)[:160]), key="raises-ascending")
+    if C.shape != (nz, n, n) or F.shape != (nz, n, n):
+        return Verdict(False, "%s: conc %s flx %s" % (tag, C.shape, F.shape), key="shape-ascending")
+    Z3 = Z.reshape(nz, n, n)
+    for k in range(nz):
+        if abs(Z3[k, 0, 0] - cx.z[k]) > 1e-12 * abs(cx.z[k]):
+            return Verdict(False, "%s: Z[%d]=%r but z[%d]=%r" % (tag, k, Z3[k, 0, 0], k, cx.z[k]), key="grid-ascending")
+    worst, where = 0.0, None
+    for l in sorted({0, 1, nz // 2, nz - 2, nz - 1}):
+        _, _, _, c1, f1 = cx.solve(int(l))
+        e = max(_cmp(C[l], c1), _cmp(F[l], f1))
+        if e > worst:
+            worst, where = e, l
+    return Verdict(worst <= cx.tol, "%s: worst relerr %.2e at level %s tol %.0e" % (tag, worst, where, cx.tol), key="levels-ascending",
+                   measured=worst / cx.tol)
 
 
 @S.kind("scalar-forms")
@@ -516,6 +547,11 @@ def generate(tier, rng):
                              rng.choice(["double", "double", "single", None]))
         yield "interface-levels", dict(raw=raw, levels=interface_selection(nz, ISTYLES[i % len(ISTYLES)]))
 
+    # a full column on a larger grid (65 / 130 levels of a 256 x 256 padded domain)
+    yield "large-full-column", dict(n=128, nz=65, footprint=True, precision="double", seed=rng.randint(0, 2 ** 31 - 1))
+    if tier == "thorough":
+        yield "large-full-column", dict(n=128, nz=130, footprint=False, precision="double", seed=rng.randint(0, 2 ** 31 - 1))
+        yield "large-full-column", dict(n=192, nz=40, footprint=True, precision="single", seed=rng.randint(0, 2 ** 31 - 1))
     STYLES = ["ascending", "descending", "unsorted", "with-top", "with-surface", "one"]
     for i in range(n_random):
         p = common()
